@@ -16,7 +16,7 @@ from mc.ref.calendar import RefCalendar
 TOGGLES = [
     "res15", "res10", "eff03", "eff15", "wkend", "leave", "vac", "limr", "limg", "limt", "gap", "prio", "alapE", "pin",
     "sc3", "sub", "month", "tz", "hours", "long", "r5", "deep", "dst", "rev", "shutdown", "night", "limmin", "many", "onstart", "cprio",
-    "tfirst", "allocrev", "inrev", "vac2", "dup", "nest", "inh",
+    "tfirst", "allocrev", "inrev", "vac2", "dup", "nest", "inh", "cdates",
 ]
 LAST = ("rev", "inrev")   # toggles that permute what the others built: applied last
 FIRST = ("month", "dst")   # toggles that move the window: applied first, dated attributes follow the window
@@ -226,6 +226,14 @@ def apply(spec, tg, n, core=False):
             {"id": "Tin", "deps": [{"ref": "C"}], "children": [
                 {"id": "t2", "effort": 60, "alloc": ["r1", "r2"], "inh": ["alloc"]},
                 {"id": "t3", "effort": 60, "alloc": ["r4"], "prio": 500, "deps": [{"ref": "!t2"}]}]}]})
+    elif tg == "cdates":
+        # dates typed on a CONTAINER that its children do not keep to (they start later than the typed start and run past the
+        # typed end): successors - on-end and on-start - follow the children's real span, not the typed dates
+        a = _task(spec, "A")
+        a.setdefault("start", _day(spec, 0, "-09:00"))
+        a["end"] = _day(spec, 1, "-17:00")
+        spec["tasks"].append({"id": "os", "effort": 120, "alloc": ["r4"], "prio": 400, "deps": [{"ref": "A", "onstart": True}]})
+        spec["tasks"].append({"id": "oe", "effort": 60, "alloc": ["r3"], "prio": 400, "deps": [{"ref": "A"}]})
     elif tg == "rev":
         spec["tasks"].reverse()   # dependents are declared before what they wait for (ties: declaration order)
     elif tg == "deep":
@@ -260,7 +268,7 @@ def universe(tier):
 
 TOGGLES7 = ["res30", "res15", "res10", "effhalf", "wkend", "leave", "vac", "limr", "limg", "limt", "gap", "prio", "pin", "month", "tz",
             "hours", "long", "r5", "deep", "dst", "rev", "shutdown", "night", "limmin", "many", "onstart", "cprio",
-            "tfirst", "allocrev", "inrev", "vac2", "dup", "nest", "inh"]
+            "tfirst", "allocrev", "inrev", "vac2", "dup", "nest", "inh", "cdates"]
 
 
 def to_spec7(item):
@@ -468,6 +476,6 @@ def sweep(ctx, st, prop):
 
 
 NOTE = ("'wide' family (all members with the compiled extensions, the members with <= 1 toggle - thorough <= 2 - again on the pure-Python fallbacks): 2 ten-task base projects (3-level task and resource trees, team, alternative, milestone, container edges, "
-        "window across the year boundary) x every subset of <= 2 (thorough: <= 3) of 37 feature toggles (resolution 15/10 min, efficiency "
+        "window across the year boundary) x every subset of <= 2 (thorough: <= 3) of 38 feature toggles (resolution 15/10 min, efficiency "
         "0.3/1.5, weekend-only resource, leaves, vacation, resource/group/task limits, gaps, priorities, ALAP task, container pin, third "
-        "scenario, sub-slot efforts, month boundary, time zone, split hours, multi-week effort, fifth resource, 5-level nesting, a window across two daylight-saving switches with zoned seven-day resources, reversed declaration order, a five-week project vacation, a Sunday-to-Thursday night shift, limits in minutes that are no round number of hours, eleven or more top-level tasks, an on-start edge followed by a plain edge, priorities inherited from containers, the task tree written before the resources, team members listed in the opposite order, children and depends entries in the opposite order, days off written latest-first, every list-like statement written twice, days off nested in / touching / overlapping each other, values that arrive by inheritance from resource groups and task containers)")
+        "scenario, sub-slot efforts, month boundary, time zone, split hours, multi-week effort, fifth resource, 5-level nesting, a window across two daylight-saving switches with zoned seven-day resources, reversed declaration order, a five-week project vacation, a Sunday-to-Thursday night shift, limits in minutes that are no round number of hours, eleven or more top-level tasks, an on-start edge followed by a plain edge, priorities inherited from containers, the task tree written before the resources, team members listed in the opposite order, children and depends entries in the opposite order, days off written latest-first, every list-like statement written twice, days off nested in / touching / overlapping each other, values that arrive by inheritance from resource groups and task containers, typed container dates that the children do not keep to)")
